@@ -1,4 +1,5 @@
 import Mainchain.Lemmas.RegistryStable
+import Mainchain.Model.Query
 /-
 C07 — Recorded WRKChain hashes and BEACON timestamps are append-only and tamper-proof.
 
@@ -143,6 +144,37 @@ theorem c07_limits_from_source :
      "wrkchain.msg_server.BlockHash.>", "wrkchain.msg_server.ParentHash.>", "wrkchain.msg_server.Hash1.>", "wrkchain.msg_server.Hash2.>",
      "wrkchain.msg_server.Hash3.>", "beacon.msgs.Hash.>", "beacon.msg_server.Hash.>"].all
       (fun k => decide (AL.find? Facts.limits k = some maxHashLen)) = true := by decide
+
+/-- **The query returns what is stored.**  In every state of every run the point query for a record (`WrkChainBlock`,
+`BeaconTimestamp`) answers with exactly the stored record — whatever heights or identifiers were recorded before or after
+it, however far apart — and answers "not found" exactly when no such record is held.  (Identifier 0 is never handed out:
+the genesis starting ids are validated to be positive; the query refuses it.) -/
+theorem c07_query_returns_the_stored_record (g : GenCfg) (hg : GenRegValid g) (s : State) (hs : FineReach g RegQ s)
+    (id k : Nat) (h0 : id ≠ 0) :
+    (∀ rc, find? s.wrk.recs (id, k) = some rc → ∃ m, Query.regRecord s.wrk id k = some (m, rc)) ∧
+    (find? s.wrk.recs (id, k) = none → Query.regRecord s.wrk id k = none) ∧
+    (∀ rc, find? s.bcn.recs (id, k) = some rc → ∃ m, Query.regRecord s.bcn id k = some (m, rc)) ∧
+    (find? s.bcn.recs (id, k) = none → Query.regRecord s.bcn id k = none) := by
+  have hwi := wrkInv_reachable g hg s (hs.weaken (fun _ h => h.1))
+  have hbi := bcnInv_reachable g hg s (hs.weaken (fun _ h => h.2))
+  have key : ∀ (r : RegState), RegInv r →
+      (∀ rc, find? r.recs (id, k) = some rc → ∃ m, Query.regRecord r id k = some (m, rc)) ∧
+      (find? r.recs (id, k) = none → Query.regRecord r id k = none) := by
+    intro r hi
+    constructor
+    · intro rc hr
+      obtain ⟨m, hm, hk, _, _⟩ := hi.recsBounded id k rc hr
+      refine ⟨m, ?_⟩
+      have hne : ¬ (id = 0 ∨ k = 0) := by omega
+      simp [Query.regRecord, hne, hm, hr]
+    · intro hr
+      unfold Query.regRecord
+      split
+      · rfl
+      · rw [hr]; split
+        · rename_i heq; cases heq
+        · rfl
+  exact ⟨(key s.wrk hwi.reg).1, (key s.wrk hwi.reg).2, (key s.bcn hbi.reg).1, (key s.bcn hbi.reg).2⟩
 
 end C07
 end Mainchain
